@@ -17,9 +17,13 @@ Reason(ev) ==
     ELSE IF ~Denotes(AsRead(ev.post), ev.g) THEN "written-document-denotes-something-else(library-reader)"
     ELSE IF ~ev.fix THEN "read-then-write-again-changes-the-bytes"
     ELSE "ok"
+\* implementation layer: the model of the reader's control state predicts what the hook at the top of its loop saw
+ImplPredicts(ev) == ev.dir = "read" /\ ev.res = "ok" => ev.hooks = ImplHooks(ev.d)
 Init == l = 1
 Step == /\ l <= Len(Trace)
-        /\ LET r == Reason(Trace[l]) IN IF r = "ok" THEN TRUE ELSE PrintT(<<"V", l, Trace[l].n, "C04", r>>)
+        /\ LET r == Reason(Trace[l]) IN
+           IF r = "ok" THEN (IF ImplPredicts(Trace[l]) THEN TRUE ELSE PrintT(<<"V", l, Trace[l].n, "DRIFT", "reader-loop-model-does-not-predict-the-hook-events">>))
+           ELSE PrintT(<<"V", l, Trace[l].n, "C04", r>>)
         /\ l' = l + 1
 Spec == Init /\ [][Step]_l
 Accepted == TLCGet("stats").diameter - 1 = Len(Trace)
